@@ -9,6 +9,7 @@ import os
 import shutil
 import sys
 import tempfile
+import types
 
 from vlib import core, l1, l3
 from vlib.modelcheck import ModelCheck
@@ -47,6 +48,10 @@ def module_sources(case):
         "    global x",
         "    x = v",
         "    return x",
+        "def slow_tag(rid, secs):",
+        "    task.sleep(secs)",  # with equal sleeps the first run resumes (and leaves the module) while the second is still inside
+        "    vrec('m1', 'slow', x, rid)",
+        "    return [x, rid]",
         "def counted(func):",
         "    def wrapper(*args, **kw):",
         "        global counter",
@@ -128,6 +133,10 @@ def script_source(name, spec, case):
             f"    vrec('{name}', 'wrapped_fn', x, y)",
             "    return n + 1",
         ]
+    if have_m1:
+        # body of a trigger that is suspended inside a module function while a second run of the same trigger starts
+        a_, b_ = case.get("ov_sleeps") or [0.2, 0.2]
+        L += ["def ov_body(rid):", f"    r = m1.slow_tag(rid, {a_} if rid == 1 else {b_})", f"    vrec('{name}', 'ov', rid, r, x)"]
     L += [
         "def main():",
         "    global x",
@@ -177,6 +186,10 @@ def gen(R):
     for _ in range(R.int(2, 6)):
         order.append(R.choice(sorted(case["scripts"])))
     case["order"] = order
+    # two overlapping runs of one trigger, both suspended inside a function of the shared module
+    cands = [n for n in sorted(case["scripts"]) if 0 in case["scripts"][n]["imports"]]
+    case["overlap"] = R.choice(cands) if cands and R.bool() else None
+    case["ov_sleeps"] = R.choice([[0.2, 0.2], [0.2, 0.2], [0.2, 0.1], [0.1, 0.3]])
     # one of the files may be installed as an app (apps/<name>.py with an entry in the apps: configuration)
     case["apps"] = [R.choice(sorted(case["scripts"]))] if R.bool(1, 3) else []
     # an interactive (Jupyter-style) session context: its own globals, and the documented context-switching functions
@@ -237,6 +250,13 @@ def run_cpython(case):
                 mods[name] = importlib.import_module(f"script_{name}")
             except Exception as e:  # noqa: BLE001
                 load_errors[name] = type(e).__name__
+        if case.get("overlap") and case["overlap"] in mods:
+            builtins.task = types.SimpleNamespace(sleep=lambda s_: None)
+            seg = len(log)
+            mods[case["overlap"]].ov_body(1)
+            mods[case["overlap"]].ov_body(2)
+            log[seg:] = sorted(log[seg:], key=json.dumps)  # the two runs overlap: their records are compared as a set
+            log.append(["overlap-end"])
         for name in case["order"]:
             if name in mods:
                 log.append(["call", name])
@@ -284,6 +304,8 @@ def run_cpython(case):
         return {"log": log, "globals": globs, "load_errors": load_errors}
     finally:
         del builtins.vrec
+        if hasattr(builtins, "task"):
+            del builtins.task
         sys.path[:] = saved_path
         for k in list(sys.modules):
             if k not in saved_mods:
@@ -302,10 +324,19 @@ async def execute(case):
             f"\n@service\ndef svc_{name}():\n    main()\n    vrec('done', '{name}')\n"
             f"\n@event_trigger('task_{name}')\ndef task_entry(**kw):\n    t = task.create(main)\n    task.wait({{t}})\n    vrec('done', '{name}')\n"
         )
+        if 0 in spec["imports"]:
+            src += f"\n@event_trigger('ov_{name}')\ndef ov_entry(rid=None, **kw):\n    ov_body(rid)\n"
         files[(f"apps/script_{name}.py" if name in case.get("apps", []) else f"script_{name}.py")] = src
     log = []
     cfg = {"apps": {f"script_{n}": {} for n in case.get("apps", [])}} if case.get("apps") else None
     async with l3.Integ(files, legacy=case["legacy"], config_extra=cfg) as it:
+        if case.get("overlap") and GlobalContextMgr.get(ctx_of(case, case["overlap"])) is not None:
+            it.fire(f"ov_{case['overlap']}", {"rid": 1})
+            it.fire(f"ov_{case['overlap']}", {"rid": 2})
+            await it.sleep(1.0)
+            await it.settle(2)
+            it.records[:] = sorted(it.records, key=lambda r_: json.dumps(list(r_[1]), default=repr))
+            it.records.append((0, ("overlap-end",), {}))
         for name in case["order"]:
             if GlobalContextMgr.get(ctx_of(case, name)) is None:
                 continue
@@ -379,7 +410,7 @@ async def execute(case):
             if g is None:
                 load_errors[name] = "failed"
             else:
-                globs[name] = canon_globals({k: v for k, v in g.global_sym_table.items() if k not in ("ev_entry", "task_entry", f"svc_{name}")})
+                globs[name] = canon_globals({k: v for k, v in g.global_sym_table.items() if k not in ("ev_entry", "task_entry", "ov_entry", f"svc_{name}")})
         for label in ("modules.m1", "modules.pkg", "modules.pkg.sub"):
             g = GlobalContextMgr.get(label)
             if g is not None:
@@ -398,7 +429,7 @@ class C11(ModelCheck):
         "inside the package, a module importing the package) and per script 1-5 cross-file calls (module function "
         "changing its own globals, raising callee, callee calling back into the caller's function, callee reaching a "
         "third file) each followed by a probe of the caller's own globals; entry through an event trigger, a service or "
-        "task.create; 2-6 entries in generated order; then, in half of the cases, 2-10 cells of an interactive (Jupyter-style) session context: define / read / write globals, "
+        "task.create; optionally first two overlapping runs of one trigger that are both suspended inside a function of the shared module; 2-6 entries in generated order; then, in half of the cases, 2-10 cells of an interactive (Jupyter-style) session context: define / read / write globals, "
         "pyscript.set_global_ctx to a script, back to the session or to a missing name, get_global_ctx, list_global_ctx, a function defined in "
         "one context and called after switching to another. Oracle: CPython importing the same files as ordinary modules - "
         "the ordered tracer log, the non-dunder globals of every file and module afterwards (so a write that lands in "
